@@ -283,6 +283,8 @@ package text
 //@   props C11,C14
 //@   ensures  (f == nil) != (err == nil)
 //@   ensures  [own-file;C14] f != nil ==> fresh(f) && wfFile(f) && f.offset == 1 && f.lines == nil && f.filename == filename
+//@   logs ioutil.ReadFile
+//@   ensures  [crlf;C11] f != nil ==> ncalls() == 1 && strof(f.data) == replaceAll(strof(callres[[]byte](1, 0)), "\r\n", "\n")
 //@   assigns  nothing
 
 //@ -- line table: lines[j] is the offset of the first byte of line j+1; line starts are exactly 0 and
